@@ -107,14 +107,14 @@ Qed.
 
 (** ** padding: main's sizes against padBunchProfiles' writes *)
 Lemma pad_start_small sp b : 0 <= b -> 0 <= sp -> b * sp < 2 ^ 32 -> pad_start sp b = b * sp.
-Proof. intros. unfold pad_start. apply wrap32_small. nia. Qed.
+Proof. intros. unfold pad_start, w64. apply Z.mod_small. change (2 ^ 64) with 18446744073709551616. change (2 ^ 32) with 4294967296 in *. nia. Qed.
 
 (** exact condition: every cell written for bucket [b] lies inside a buffer of [nm] cells
     iff the last one does *)
 Lemma pad_in_bounds_exact n nm sp b :
   0 < n -> (pad_last n sp b <? nm = true <-> forall x, 0 <= x < n -> 0 <= pad_index sp b x < nm).
 Proof.
-  intros Hn. unfold pad_last, pad_index. pose proof (wrap32_range (b * sp)) as W. unfold pad_start.
+  intros Hn. unfold pad_last, pad_index. pose proof (Z.mod_pos_bound (b * sp) (2 ^ 64) ltac:(reflexivity)) as W. unfold pad_start, w64.
   split.
   - intros H x Hx. lia.
   - intros H. specialize (H (n - 1) ltac:(lia)). lia.
